@@ -10,10 +10,28 @@ TRUST = ("Apply mirrors baseapp's per-message branch/commit; cosmos-sdk store/IA
 
 # id -> (built?, category, technique, text, design_ref, extra note)
 CHECKS = {
+ "C03": (True, "model_checking", "exhaustive product enumeration of acceptance-condition vectors over the real receive handler",
+         "Every combination of acceptance-condition values (configuration built by real admin transactions x message fields) is submitted to the real "
+         "handler on real bank/fiattokenfactory keepers; success must equal the conjunction computed by the reference model, rejected receives must leave all four stores byte-identical.",
+         "5 C03", ""),
+ "C08": (True, "model_checking", "exhaustive product enumeration of precondition vectors over the real deposit handlers",
+         "Every combination of configuration (limit, flags, max body, denom spelling, burn-side state) and request (amount boundaries, token, recipient, caller, depositor, destination) "
+         "is executed; success iff the documented conjunction, with 'can pay'/'burn succeeds' answered by a dry run on the real ledger.", "5 C08", ""),
+ "C10": (True, "model_checking", "explicit-state BFS over role assignments + exhaustive probes of every privileged transaction by every submitter",
+         "All assignments of the four roles and the pending slot over the account universe are reached by real role transactions; in each, all 18 privileged "
+         "transaction types are submitted by every account; effect iff the submitter holds the matching role, otherwise byte-identical state.", "5 C10", ""),
+ "C11": (True, "model_checking", "explicit-state BFS to closure in lockstep with the lifecycle automaton",
+         "The closed set of role states is explored with every role-update/accept transaction (valid and invalid new holders) by every submitter and compared with the "
+         "two-step ownership automaton in every state; every unrelated transaction type is probed not to move any role.", "5 C11", ""),
+ "C12": (True, "model_checking", "explicit-state BFS over pause actions + flow/admin probes in every state",
+         "All flag states reachable by pause/unpause by every account, from several history points; in each the 8 user flows and 18 admin transactions are probed against the flag x flow matrix.", "5 C12", ""),
  "C13": (True, "model_checking", "explicit-state BFS to closure over the real handlers, from every valid start state",
          "Every state reachable by enable/disable/update-threshold sequences over a 3-key (quick) / 4-key (thorough) universe with extra "
          "spellings, from every start state with 1<=t<=|E|, is visited; the invariant and agreement with a reference model are checked in "
          "every state, a three-valued step oracle on every transition.", "5 C13", ""),
+ "C16": (True, "model_checking", "exhaustive enumeration of byte strings and field values against an independent reference codec",
+         "Every length 0..N x structured patterns incl. a walking byte at every position, and the product of boundary field values x field sizes, are decoded/encoded by the "
+         "implementation and by an independent codec written from the stated layout; results must agree and round-trip.", "5 C16", ""),
 }
 
 NOT_BUILT_REASON = "check not built yet in this round (design in DESIGN.md section 5); no claim is made"
